@@ -203,6 +203,8 @@ pub struct World<C: MlsConfig> {
     pub ended: bool,
     /// per member: (tree string, tree-hash cache entries) as of the previous commit, for the cache-coherence rows (C08)
     pub hash_caches: BTreeMap<usize, (String, Vec<Vec<u8>>)>,
+    /// per member: the parent-hash layer (stored parent_hash of every parent, Commit source of every leaf) as of the previous commit
+    pub ph_layers: BTreeMap<usize, Vec<Option<Vec<u8>>>>,
 }
 
 /// Abstract view of one tree node, numbers from `Stamps`.
@@ -232,6 +234,21 @@ pub fn abstract_nodes(nodes: &[Option<Node>], st: &mut Stamps) -> Vec<ANode> {
             Some(Node::Parent(p)) => ANode::Parent {
                 key: st.of(&p.public_key),
                 unmerged: p.unmerged_leaves.iter().map(|l| **l).collect(),
+            },
+        })
+        .collect()
+}
+
+/// the parent-hash layer of a node vector: `None` for a blank node or a leaf whose source is not a commit
+pub fn ph_layer(nodes: &[Option<Node>]) -> Vec<Option<Vec<u8>>> {
+    nodes
+        .iter()
+        .map(|n| match n {
+            None => None,
+            Some(Node::Parent(p)) => Some(p.parent_hash.to_vec()),
+            Some(Node::Leaf(l)) => match &l.leaf_node_source {
+                mls_rs::group::LeafNodeSource::Commit(ph) => Some(ph.to_vec()),
+                _ => None,
             },
         })
         .collect()
@@ -394,6 +411,7 @@ pub fn new_world<C: MlsConfig>(log: SharedCryptoLog, scratch: &str) -> World<C> 
         rejected: vec![],
         ended: false,
         hash_caches: Default::default(),
+        ph_layers: Default::default(),
     }
 }
 
